@@ -9,7 +9,7 @@
     - the repeat-offset step never underflows: C14_offset_history_no_overflow *)
 Require Import Zrs.lib.RsPrelude Zrs.model.RingBuffer Zrs.model.BlockDec.
 Require Import Zrs.proofs.C04_Run Zrs.proofs.C06_Drain Zrs.proofs.C05_Block Zrs.proofs.C12_Fse Zrs.proofs.C14_Headers.
-Require Import Zrs.model.FseDec Zrs.gen.Generated.
+Require Import Zrs.model.FseDec Zrs.gen.Generated Zrs.model.BitIO Zrs.model.BitRev64 Zrs.proofs.C03_BitRev64.
 Open Scope Z_scope.
 
 Theorem C03_window_never_faults : forall k ops, (1 <= k)%nat -> Forall op_contract ops -> forall s, Inv s ->
@@ -31,6 +31,20 @@ Theorem C03_offset_history_no_underflow : forall ov ll h1 h2 h3,
   1 <= ov < 2 ^ 32 -> 0 <= ll -> 0 <= h1 < 2 ^ 32 -> do_offset_history_safe ov ll [h1; h2; h3] = true.
 Proof. exact offset_history_safe. Qed.
 
+(** the 64-bit container machine of the reversed bit reader: for every source and every script of reads of at most 56
+    bits (single or triple), no slice goes out of range when refilling, no u8 arithmetic overflows, no shift is too
+    wide, and after every read bits_remaining is the initial value minus the bits requested ... *)
+Theorem C03_bit_reader_never_panics : forall ops r, BInv r -> Forall op_ok ops ->
+  exists out, brr_run r ops = ROk out /\ map snd out = counts (brr_bits_remaining r) ops.
+Proof. exact brr_run_ok. Qed.
+
+(** ... which is also what the abstract reader used by the decoder model reports *)
+Theorem C03_bit_reader_counters_agree : forall src ops out, Forall op_ok ops -> brr_run (brr_new src) ops = ROk out ->
+  map snd out = map snd (rbr_run (rbr_new src) ops).
+Proof. exact counters_agree. Qed.
+
+Print Assumptions C03_bit_reader_never_panics.
+Print Assumptions C03_bit_reader_counters_agree.
 Print Assumptions C03_window_never_faults.
 Print Assumptions C03_fse_transition_in_table.
 Print Assumptions C03_sequence_execution_keeps_invariants.
